@@ -6,7 +6,7 @@ import vlib
 from runner import PropBase
 from vlib import Rng
 
-KEYS = ["mz", "st", "ga", "gA", "gr", "iv", "ch", "sp", "ip", "spn", "ipn", "rn", "vn", "cr", "cv", "sz", "fm", "mg", "sa", "ia"]
+KEYS = ["mz", "st", "ga", "gA", "gr", "iv", "ch", "sp", "ip", "spn", "ipn", "rn", "vn", "cr", "cv", "sz", "fm", "mg", "mga", "sa", "ia"]
 UNKNOWN = ["-", "foo", "$eip", "RAX", "Rsp", "x31", "r32", "g_r32", "g8", "pc.", "cpsr", "EIP", "zz"]
 
 
@@ -331,7 +331,7 @@ class C18(PropBase):
             return "%s: CpuContext::valid_registers under %s lists [%s], expected %s" % (variant, vspec, d["cv"], want_cv)
         if d["ev"] != "1":
             return "%s: an enumeration reported a value different from get_register_always" % variant
-        if d["mf"] != "1" or d["ma"] != "1":
+        if d["mf"] != "1" or d["ma"] != "1" or d["mga"] != d["ga"]:
             return "%s: MinidumpContext::format_register / get_register_always differ from the CpuContext methods" % who
         if int(d["sz"]) * 8 != names_table()[variant]["width"]:
             return "%s: register_size %s does not match the Register type" % (variant, d["sz"])
